@@ -12,6 +12,7 @@ import (
 	"strings"
 	"time"
 
+	"go.flow.arcalot.io/pluginsdk/mcrt"
 	"go.flow.arcalot.io/pluginsdk/schema"
 	"verif/engine/lib"
 	"verif/engine/ux"
@@ -362,11 +363,88 @@ func (c *checker) exercise(kase string, fn schema.CallableFunction, h handlerSpe
 	}
 }
 
+// concurrentCalls: one function object called by two threads at once with different arguments (the engine evaluates
+// expressions of several workflow steps in parallel): under the cooperative scheduler, all schedules with at most one
+// preemption, every execution scanned for happens-before races on the function object (schema/ is built with the
+// access rewrite for this check); each call must return what its own arguments give.
+func concurrentCalls(res *ux.Result) {
+	str := func() schema.Type { return schema.NewStringSchema(nil, nil, nil) }
+	type fcase struct {
+		name string
+		make func() (schema.CallableFunction, error)
+		n    int
+	}
+	cases := []fcase{
+		{"NewCallableFunction, three parameters", func() (schema.CallableFunction, error) {
+			return schema.NewCallableFunction("join3", []schema.Type{str(), str(), str()}, str(), false, nil,
+				func(a, b, c string) string { return a + "|" + b + "|" + c })
+		}, 3},
+		{"NewCallableFunction, one parameter, error result", func() (schema.CallableFunction, error) {
+			return schema.NewCallableFunction("echo", []schema.Type{str()}, str(), true, nil,
+				func(a string) (string, error) { return "<" + a + ">", nil })
+		}, 1},
+		{"NewDynamicCallableFunction, two parameters", func() (schema.CallableFunction, error) {
+			return schema.NewDynamicCallableFunction("join2", []schema.Type{str(), str()}, nil,
+				func(a, b string) (any, error) { return a + "|" + b, nil },
+				func(in []schema.Type) (schema.Type, error) { return schema.NewAnySchema(), nil })
+		}, 2},
+	}
+	for ci, fc := range cases {
+		kase := "two concurrent calls of one function object: " + fc.name
+		fn, err := fc.make()
+		if err != nil {
+			res.Add("INFRA concurrent part: constructor refused a matching handler", kase+": "+err.Error(), replay{-1, kase})
+			continue
+		}
+		argsOf := func(who string) []any {
+			out := make([]any, fc.n)
+			for i := range out {
+				out[i] = fmt.Sprintf("%s%d", who, i)
+			}
+			return out
+		}
+		want := func(who string) string {
+			v, err := fn.Call(argsOf(who))
+			return fmt.Sprint(v, err)
+		}
+		wantA, wantB := want("a"), want("b")
+		var gotA, gotB string
+		e := &mcrt.Explorer{Embedded: true, MaxPreempt: 1, MaxDelay: 1, MaxSteps: 1 << 20, Races: true, Body: func() {
+			var wg mcrt.WaitGroup
+			wg.Add(2)
+			mcrt.GoNamed("caller-a", func() { defer wg.Done(); v, err := fn.Call(argsOf("a")); gotA = fmt.Sprint(v, err) })
+			mcrt.GoNamed("caller-b", func() { defer wg.Done(); v, err := fn.Call(argsOf("b")); gotB = fmt.Sprint(v, err) })
+			wg.Wait()
+		}, Check: func(r *mcrt.Result) bool {
+			res.Evaluations++
+			rp := replay{-1 - ci, kase}
+			switch r.Status {
+			case mcrt.StPanic:
+				res.Add(fmt.Sprintf("panic in %s: %s", lib.PanicSite(r.PanicStack), lib.PanicClass(r.PanicValue)), kase+"\npanic: "+r.PanicValue, rp)
+			case mcrt.StComplete:
+				for _, rc := range r.Races {
+					res.Add("data race between two calls of one function object: "+rc.Kind+" "+rc.First+" <-> "+rc.Then, kase+"\n"+rc.String(), rp)
+				}
+				if gotA != wantA || gotB != wantB {
+					res.Add("a call returns something else when another call of the same function runs at the same time", fmt.Sprintf("%s\ncaller a: %s (alone: %s)\ncaller b: %s (alone: %s)", kase, gotA, wantA, gotB, wantB), rp)
+				}
+			}
+			return true
+		}}
+		e.All()
+	}
+}
+
 func run(tier string, raw json.RawMessage, from int, deadline time.Time) ux.Result {
 	thoroughTier = thoroughTier || tier == "thorough"
 	var b batch
 	_ = json.Unmarshal(raw, &b)
 	var res ux.Result
+	if b.Params < 0 {
+		concurrentCalls(&res)
+		res.Nontrivial = res.Evaluations
+		return res
+	}
 	c := &checker{res: &res, pi: b.Params}
 	params := paramLists()[b.Params]
 	ins := make([]reflect.Type, len(params))
@@ -476,6 +554,7 @@ func main() {
 			for i := range paramLists() {
 				out = append(out, batch{i})
 			}
+			out = append(out, batch{-1}) // the concurrent part
 			return out
 		},
 		Run: run,
@@ -488,7 +567,7 @@ func main() {
 			res := run("thorough", b, 0, time.Time{})
 			return res.Findings
 		},
-		Rule: "handlers built with reflect.MakeFunc for every parameter list of 0-2 parameters over 15 native types (the typed list / map schemas included; int64, string, float64, bool, []string, map[string]int64, any, map[int64]int64, []int64, []map[string]int64, []map[int64]int64, []MyStr (a list of typed enum values), MyStr) and 3 parameters over 3 types (thorough tier: over 6 types) x 14 result shapes (none, V, error, (V,error), (V,V), (V,V,error), (error,V), (V,bool), (V, int type named 'error'), (int type named 'error'), and four with a result that implements error without being the predeclared interface: (V,*T), (V,struct), (V, wider interface), (*T)) x declarations (matching inputs, every single-position mismatch, one fewer, one more; output in {nil, each of the 7}; outputsError in {false,true}) for NewCallableFunction, and the inputs for NewDynamicCallableFunction; every accepted function is called with 0..4 arguments, and once with a handler returning a non-nil error",
+		Rule: "handlers built with reflect.MakeFunc for every parameter list of 0-2 parameters over 15 native types (the typed list / map schemas included; int64, string, float64, bool, []string, map[string]int64, any, map[int64]int64, []int64, []map[string]int64, []map[int64]int64, []MyStr (a list of typed enum values), MyStr) and 3 parameters over 3 types (thorough tier: over 6 types) x 14 result shapes (none, V, error, (V,error), (V,V), (V,V,error), (error,V), (V,bool), (V, int type named 'error'), (int type named 'error'), and four with a result that implements error without being the predeclared interface: (V,*T), (V,struct), (V, wider interface), (*T)) x declarations (matching inputs, every single-position mismatch, one fewer, one more; output in {nil, each of the 7}; outputsError in {false,true}) for NewCallableFunction, and the inputs for NewDynamicCallableFunction; every accepted function is called with 0..4 arguments, and once with a handler returning a non-nil error; three function objects are each called by two threads at once with different arguments (all schedules with <= 1 preemption, vector-clock race scan, results as alone)",
 		Assumptions: []string{
 			"reference predicate: parameter and result types equal the schemas' reflected types; an error result is the predeclared interface type error",
 			"interface types other than `error` that embed error are outside the alphabet",
